@@ -54,10 +54,19 @@ class Meta(dict):
             if len(args) > 1:
                 raise ValueError('Only one argument can be input')
             other = dict(args[0])
-            for key in other:
-                self[key] = other[key]
-        for key in kwargs:
-            self[key] = kwargs[key]
+        else:
+            other = {}
+        other.update(kwargs)
+        # validate all keys before changing anything
+        for key in other:
+            if self.key_mapping.get(key, key) not in self.valid_keys:
+                raise KeyError(f'{key} is not a valid key for this class.')
+        for key in other:
+            self[key] = other[key]
+
+    def __ior__(self, other):
+        self.update(other)
+        return self
 
     def setdefault(self, key, value=None):
         if key not in self:
